@@ -3,6 +3,7 @@ package props
 import (
 	"bytes"
 	"fmt"
+	"strings"
 
 	"github.com/contiv/libOpenflow/protocol"
 	"github.com/contiv/libOpenflow/util"
@@ -139,6 +140,11 @@ func init() {
 			if a.SetSize("kinds") < 20 || a.Counters["roundtrip_ok"] < 100000 || a.SetSize("packed_groups") < len(packedGroups) || a.SetSize("chains") < 10 {
 				return fmt.Errorf("too little observed: kinds=%d ok=%d groups=%d chains=%d", a.SetSize("kinds"), a.Counters["roundtrip_ok"], a.SetSize("packed_groups"), a.SetSize("chains"))
 			}
+			for _, k := range gen.PacketKinds {
+				if !a.Sets["kinds"][k] && !strings.HasPrefix(k, "lldp_") {
+					return fmt.Errorf("packet kind %s never observed", k)
+				}
+			}
 			return nil
 		},
 		Extra: func(a *fw.Agg) map[string]any {
@@ -159,7 +165,7 @@ func c09Gen(tier string, seed uint64, i int) any {
 	}
 	i -= len(c09PackedList)
 	r := prng.Derive(seed, 9, uint64(i))
-	kind := gen.PacketKinds[i%len(gen.PacketKinds)]
+	kind := gen.PacketKinds[(i-i/3)%len(gen.PacketKinds)] // i - i/3 counts up by one over the indices that are not multiples of 3
 	if i%3 == 0 {
 		kind = []string{"ethernet", "ipv6", "ipv4", "ethernet", "igmp3_report", "dhcp", "hbh", "ethernet"}[(i/3)%8]
 	}
